@@ -52,7 +52,10 @@ Scheme expr_mut := Induction for expr Sort Prop
   with exprs_mut := Induction for exprs Sort Prop.
 Combined Scheme expr_mutind from expr_mut, chain_mut, exprs_mut.
 
-Inductive stmt := SReturn (e : expr) | SReturnNone | SDoc | SOtherStmt.
+Inductive stmt :=
+| SReturn (e : expr) | SReturnNone | SDoc
+| SAssign (x : N) (e : expr)                      (* ast.Assign with ONE ast.Name target: x = e *)
+| SOtherStmt.                                     (* any other statement: AugAssign, If, For, pass, ... *)
 Record fundef := mkFun { fd_params : list N; fd_body : list stmt }.
 
 Fixpoint elen (es : exprs) : nat := match es with ENil => 0 | ECons _ r => S (elen r) end.
@@ -106,6 +109,11 @@ Inductive math_names :=
 | MathIds           (* the math (and the symbol of an initial assignment, the id of a species reference) uses the id
                        under which the component is written: _sbml_ids *)
 | MathNamesUnknown.
+Inductive body_mode :=
+| BodyAllLast       (* _handle_body converts EVERY statement and returns the last result: a statement that is not a
+                       `return <expr>` makes the export raise *)
+| BodyLastOnly      (* only stmts[-1] is converted: everything before the last statement is silently dropped (seeded C08-4) *)
+| BodyUnknown.
 Inductive refid_mode :=
 | RefPerSpecies     (* reference id / rule name "<species>ref", whatever the reaction *)
 | RefCounted        (* "<species>ref", "<species>ref2", ...: one reference per computed coefficient of the species *)
@@ -132,6 +140,7 @@ Record facts := mkFacts {
   f_rename : rename_mode;                  (* how _tree_to_sbml renames parameters to model names *)
   f_ref_id : refid_mode;                   (* id of the species reference / rule of a computed coefficient *)
   f_math_names : math_names;               (* identifiers inside the exported math *)
+  f_body : body_mode;                      (* which statements of a function body _handle_body converts *)
   f_shapes_ok : bool                       (* every other modelled statement has the expected shape *)
 }.
 
@@ -320,12 +329,20 @@ Section Convert.
     | SReturn e => conv e
     | SReturnNone => Err ErrValue
     | SDoc => Err ErrNotImpl                 (* removed before; an ast.Expr is not convertible *)
+    | SAssign _ _ => Err ErrNotImpl          (* ast.Assign falls through to `case _` of _convert_node *)
     | SOtherStmt => Err ErrNotImpl
     end.
 
-  (** _handle_body: every statement is converted, the LAST result is returned *)
+  (** _handle_body: every statement is converted, the LAST result is returned (BodyAllLast, the tree);
+      BodyLastOnly = `_convert_node(stmts[-1])`, an empty body gives the empty node in both *)
+  Definition body_step (acc : result ml) (s : stmt) : result ml :=
+    match acc with Err e => Err e | Ok _ => conv_stmt s end.
   Definition handle_body (ss : list stmt) : result ml :=
-    fold_left (fun acc s => match acc with Err e => Err e | Ok _ => conv_stmt s end) ss (Ok MUnknown).
+    match f_body F with
+    | BodyAllLast => fold_left body_step ss (Ok MUnknown)
+    | BodyLastOnly => match rev ss with [] => Ok MUnknown | s :: _ => conv_stmt s end
+    | BodyUnknown => Err ErrOther
+    end.
 End Convert.
 
 (** IdentifierReplacer: simultaneous renaming of ast.Name nodes *)
@@ -349,8 +366,14 @@ with rename_chain (mp : list (N * N)) (ch : chain) : chain :=
 with rename_list (mp : list (N * N)) (es : exprs) : exprs :=
   match es with ENil => ENil | ECons e r => ECons (rename mp e) (rename_list mp r) end.
 
+(** IdentifierReplacer visits every ast.Name, the target of an assignment included *)
+Definition rename_name (mp : list (N * N)) (x : N) : N := match assocN x mp with Some y => y | None => x end.
 Definition rename_stmt (mp : list (N * N)) (s : stmt) : stmt :=
-  match s with SReturn e => SReturn (rename mp e) | s' => s' end.
+  match s with
+  | SReturn e => SReturn (rename mp e)
+  | SAssign x e => SAssign (rename_name mp x) (rename mp e)
+  | s' => s'
+  end.
 
 Definition is_doc (s : stmt) : bool := match s with SDoc => true | _ => false end.
 
@@ -358,8 +381,14 @@ Definition is_doc (s : stmt) : bool := match s with SDoc => true | _ => false en
     two names are equal renames nothing, so skipping it changes nothing) *)
 Fixpoint rename_seq (mp : list (N * N)) (e : expr) : expr :=
   match mp with [] => e | p :: r => rename_seq r (rename [p] e) end.
+Fixpoint rename_name_seq (mp : list (N * N)) (x : N) : N :=
+  match mp with [] => x | p :: r => rename_name_seq r (rename_name [p] x) end.
 Definition rename_stmt_seq (mp : list (N * N)) (s : stmt) : stmt :=
-  match s with SReturn e => SReturn (rename_seq mp e) | s' => s' end.
+  match s with
+  | SReturn e => SReturn (rename_seq mp e)
+  | SAssign x e => SAssign (rename_name_seq mp x) (rename_seq mp e)
+  | s' => s'
+  end.
 
 (** one pass per pair cannot go wrong when no pass can touch what an earlier pass introduced: for every pair
     (parameter, model name) the model name is not the parameter of a LATER pair *)
@@ -390,7 +419,7 @@ Definition tree_to_sbml (F : facts) (fd : fundef) (args : list N) : result ml :=
 (* ------------------------------------------------------------------------------------- *)
 (** * semantics *)
 Inductive rfun :=
-| RPow | RQuot | RRem | RSqrt | RAbs | RCeil | RFloor | RExp
+| RPow | RQuot | RRem | RIeeeRem | RSqrt | RAbs | RCeil | RFloor | RExp
 | RSin | RCos | RTan | RAsin | RAcos | RAtan | RSinh | RCosh | RTanh | RAsinh | RAcosh | RAtanh
 | RLn | RLog10 | RLogBase | RMax | RMin | RConstE | RConstPi.
 
@@ -408,8 +437,12 @@ Definition cmp_sem (op : cmpop) (a b : Q) : option bool :=
   | CIs | COtherCmp => None
   end.
 
-(** what the names of math / numpy (and the builtins abs, max, min) compute *)
-Definition py_fn (name : string) (n : nat) : option rfun :=
+(** where a called function comes from: a bare name (builtins abs / max / min, `from math import ...`), math.<f>, or
+    np.<f> / numpy.<f> *)
+Inductive pylib := LBare | LMath | LNumpy.
+
+(** what the names of math / numpy (and the builtins abs, max, min) compute, library by library where they differ *)
+Definition py_fn0 (name : string) (n : nat) : option rfun :=
   let is s := String.eqb name s in
   match n with
   | 1%nat =>
@@ -423,13 +456,27 @@ Definition py_fn (name : string) (n : nat) : option rfun :=
       else if is "max"%string then Some RMax else if is "min"%string then Some RMin
       else None
   | 2%nat =>
-      if is "power"%string then Some RPow else if is "remainder"%string then Some RRem
+      if is "power"%string then Some RPow
       else if is "log"%string then Some RLogBase
       else if is "max"%string then Some RMax else if is "min"%string then Some RMin
       else None
   | O => None
   | _ => if is "max"%string then Some RMax else if is "min"%string then Some RMin else None
   end.
+
+(** `remainder` is two different functions: numpy.remainder(a, b) is the floored modulo (= a % b, what <rem/> means to the
+    importer), math.remainder(a, b) the IEEE 754 remainder a - round_half_even(a / b) * b (5, 3 -> -1, not 2); a bare
+    `remainder` is taken to be math's (`from math import remainder`) *)
+Definition py_fn (lib : pylib) (name : string) (n : nat) : option rfun :=
+  if String.eqb name "remainder"%string then
+    match n, lib with
+    | 2%nat, LNumpy => Some RRem
+    | 2%nat, _ => Some RIeeeRem
+    | _, _ => None
+    end
+  else py_fn0 name n.
+Definition all_libs : list pylib := [LBare; LMath; LNumpy].
+Definition lib_of (parent : string) : pylib := if String.eqb parent "math"%string then LMath else LNumpy.
 
 (** SBML L3V2 table of MathML functions: libSBML node type + number of children -> function *)
 Definition kind_rfun (k : mkind) (n : nat) : option rfun :=
@@ -487,8 +534,8 @@ Section Semantics.
   Definition attr_sem (a : string) : option Q :=
     if String.eqb a "e"%string then ufn RConstE [] else if String.eqb a "pi"%string then ufn RConstPi [] else None.
 
-  Definition call_sem (name : string) (vs : list Q) : option Q :=
-    match py_fn name (List.length vs) with Some r => ufn r vs | None => None end.
+  Definition call_sem (lib : pylib) (name : string) (vs : list Q) : option Q :=
+    match py_fn lib name (List.length vs) with Some r => ufn r vs | None => None end.
 
   Definition is_lib (p : string) : bool :=
     String.eqb p "math"%string || String.eqb p "np"%string || String.eqb p "numpy"%string.
@@ -514,10 +561,10 @@ Section Semantics.
         end
     | ECallName f args kw =>
         if kw then None else
-        match eval_list args with Some vs => call_sem f vs | None => None end
+        match eval_list args with Some vs => call_sem LBare f vs | None => None end
     | ECallAttr p a args kw =>
         if kw then None else
-        if is_lib p then match eval_list args with Some vs => call_sem a vs | None => None end
+        if is_lib p then match eval_list args with Some vs => call_sem (lib_of p) a vs | None => None end
         else None
     | ECallOther _ => None
     | EAttr p a => if is_lib p then attr_sem a else None
@@ -642,11 +689,16 @@ Fixpoint bind_params (ps : list N) (vs : list (option Q)) (x : N) : option Q :=
   | _, _ => None
   end.
 
+Definition upd (rho : N -> option Q) (x : N) (v : Q) : N -> option Q := fun y => if N.eqb y x then Some v else rho y.
+
+(** statements run in order; `x = e` rebinds x (a parameter or a new local) for the statements after it; any other
+    statement has no modelled value *)
 Fixpoint eval_body (ufn : rfun -> list Q -> option Q) (rho : N -> option Q) (ss : list stmt) : option Q :=
   match ss with
   | [] => None
   | SReturn e :: _ => eval_py ufn rho e
   | SDoc :: r => eval_body ufn rho r
+  | SAssign x e :: r => match eval_py ufn rho e with Some v => eval_body ufn (upd rho x v) r | None => None end
   | SReturnNone :: _ => None
   | SOtherStmt :: _ => None
   end.
@@ -711,8 +763,11 @@ Definition fn_entry_ok (pyf mlf : option rfun) : bool :=
   | None => true                                   (* Python has no such function: nothing to preserve *)
   | Some r => match mlf with Some r' => rfun_beq r r' | None => false end
   end.
-Definition unary_ok (F : facts) (p : string * mkind) : bool := fn_entry_ok (py_fn (fst p) 1) (unary_ml_fn F (snd p)).
-Definition binary_ok (p : string * mkind) : bool := fn_entry_ok (py_fn (fst p) 2) (kind_fn (snd p) 2).
+(** a table entry is looked up by name only, whatever the library: it must be right for every library *)
+Definition unary_ok (F : facts) (p : string * mkind) : bool :=
+  forallb (fun lib => fn_entry_ok (py_fn lib (fst p) 1) (unary_ml_fn F (snd p))) all_libs.
+Definition binary_ok (p : string * mkind) : bool :=
+  forallb (fun lib => fn_entry_ok (py_fn lib (fst p) 2) (kind_fn (snd p) 2)) all_libs.
 Definition nary_ok (p : string * mkind) : bool :=
   (String.eqb (fst p) "max" && mkind_beq (snd p) K_FUNCTION_MAX)
   || (String.eqb (fst p) "min" && mkind_beq (snd p) K_FUNCTION_MIN).
@@ -744,7 +799,8 @@ Definition facts_good (F : facts) : bool :=
   && forallb (unary_ok F) (f_unary F) && forallb binary_ok (f_binary F) && forallb nary_ok (f_nary F)
   && order_eqb (f_ifexp_order F) [CBody; CTest; COrelse]
   && forallb is_lib (f_lib_parents F) && forallb attr_ok (f_attr_consts F)
-  && match f_rename F with RenSimultaneous => true | _ => false end.
+  && match f_rename F with RenSimultaneous => true | _ => false end
+  && match f_body F with BodyAllLast => true | _ => false end.
 
 (** * the representable subset, as the tables define it *)
 Definition is_some {A} (o : option A) : bool := match o with Some _ => true | None => false end.
@@ -781,36 +837,53 @@ Definition single_return (fd : fundef) (e : expr) : Prop :=
 Definition set_ifexp_order (o : list ifchild) (F : facts) : facts :=
   mkFacts (f_unary F) (f_binary F) (f_nary F) (f_unop F) (f_binop F) (f_cmpop F) o (f_compare F) (f_call_fallback F)
           (f_call_arity F) (f_call_kw_reject F) (f_unary_qual F) (f_lib_parents F) (f_attr_consts F) (f_derived_role F)
-          (f_num_stoich F) (f_ia_setter F) (f_rename F) (f_ref_id F) (f_math_names F) (f_shapes_ok F).
+          (f_num_stoich F) (f_ia_setter F) (f_rename F) (f_ref_id F) (f_math_names F) (f_body F) (f_shapes_ok F).
 Definition set_compare (c : compare_mode) (F : facts) : facts :=
   mkFacts (f_unary F) (f_binary F) (f_nary F) (f_unop F) (f_binop F) (f_cmpop F) (f_ifexp_order F) c (f_call_fallback F)
           (f_call_arity F) (f_call_kw_reject F) (f_unary_qual F) (f_lib_parents F) (f_attr_consts F) (f_derived_role F)
-          (f_num_stoich F) (f_ia_setter F) (f_rename F) (f_ref_id F) (f_math_names F) (f_shapes_ok F).
+          (f_num_stoich F) (f_ia_setter F) (f_rename F) (f_ref_id F) (f_math_names F) (f_body F) (f_shapes_ok F).
 Definition set_call (fb : call_fallback) (arity kw : bool) (F : facts) : facts :=
   mkFacts (f_unary F) (f_binary F) (f_nary F) (f_unop F) (f_binop F) (f_cmpop F) (f_ifexp_order F) (f_compare F) fb
           arity kw (f_unary_qual F) (f_lib_parents F) (f_attr_consts F) (f_derived_role F)
-          (f_num_stoich F) (f_ia_setter F) (f_rename F) (f_ref_id F) (f_math_names F) (f_shapes_ok F).
+          (f_num_stoich F) (f_ia_setter F) (f_rename F) (f_ref_id F) (f_math_names F) (f_body F) (f_shapes_ok F).
 Definition set_unary_qual (q : list (mkind * Z)) (F : facts) : facts :=
   mkFacts (f_unary F) (f_binary F) (f_nary F) (f_unop F) (f_binop F) (f_cmpop F) (f_ifexp_order F) (f_compare F)
           (f_call_fallback F) (f_call_arity F) (f_call_kw_reject F) q (f_lib_parents F) (f_attr_consts F) (f_derived_role F)
-          (f_num_stoich F) (f_ia_setter F) (f_rename F) (f_ref_id F) (f_math_names F) (f_shapes_ok F).
+          (f_num_stoich F) (f_ia_setter F) (f_rename F) (f_ref_id F) (f_math_names F) (f_body F) (f_shapes_ok F).
 Definition set_derived_role (r : role) (F : facts) : facts :=
   mkFacts (f_unary F) (f_binary F) (f_nary F) (f_unop F) (f_binop F) (f_cmpop F) (f_ifexp_order F) (f_compare F)
           (f_call_fallback F) (f_call_arity F) (f_call_kw_reject F) (f_unary_qual F) (f_lib_parents F) (f_attr_consts F) r
-          (f_num_stoich F) (f_ia_setter F) (f_rename F) (f_ref_id F) (f_math_names F) (f_shapes_ok F).
+          (f_num_stoich F) (f_ia_setter F) (f_rename F) (f_ref_id F) (f_math_names F) (f_body F) (f_shapes_ok F).
 Definition set_ia_setter (i : ia_setter) (F : facts) : facts :=
   mkFacts (f_unary F) (f_binary F) (f_nary F) (f_unop F) (f_binop F) (f_cmpop F) (f_ifexp_order F) (f_compare F)
           (f_call_fallback F) (f_call_arity F) (f_call_kw_reject F) (f_unary_qual F) (f_lib_parents F) (f_attr_consts F)
-          (f_derived_role F) (f_num_stoich F) i (f_rename F) (f_ref_id F) (f_math_names F) (f_shapes_ok F).
+          (f_derived_role F) (f_num_stoich F) i (f_rename F) (f_ref_id F) (f_math_names F) (f_body F) (f_shapes_ok F).
 Definition set_rename (m : rename_mode) (F : facts) : facts :=
   mkFacts (f_unary F) (f_binary F) (f_nary F) (f_unop F) (f_binop F) (f_cmpop F) (f_ifexp_order F) (f_compare F)
           (f_call_fallback F) (f_call_arity F) (f_call_kw_reject F) (f_unary_qual F) (f_lib_parents F) (f_attr_consts F)
-          (f_derived_role F) (f_num_stoich F) (f_ia_setter F) m (f_ref_id F) (f_math_names F) (f_shapes_ok F).
+          (f_derived_role F) (f_num_stoich F) (f_ia_setter F) m (f_ref_id F) (f_math_names F) (f_body F) (f_shapes_ok F).
 Definition set_ref_id (m : refid_mode) (F : facts) : facts :=
   mkFacts (f_unary F) (f_binary F) (f_nary F) (f_unop F) (f_binop F) (f_cmpop F) (f_ifexp_order F) (f_compare F)
           (f_call_fallback F) (f_call_arity F) (f_call_kw_reject F) (f_unary_qual F) (f_lib_parents F) (f_attr_consts F)
-          (f_derived_role F) (f_num_stoich F) (f_ia_setter F) (f_rename F) m (f_math_names F) (f_shapes_ok F).
+          (f_derived_role F) (f_num_stoich F) (f_ia_setter F) (f_rename F) m (f_math_names F) (f_body F) (f_shapes_ok F).
 Definition set_math_names (m : math_names) (F : facts) : facts :=
   mkFacts (f_unary F) (f_binary F) (f_nary F) (f_unop F) (f_binop F) (f_cmpop F) (f_ifexp_order F) (f_compare F)
           (f_call_fallback F) (f_call_arity F) (f_call_kw_reject F) (f_unary_qual F) (f_lib_parents F) (f_attr_consts F)
-          (f_derived_role F) (f_num_stoich F) (f_ia_setter F) (f_rename F) (f_ref_id F) m (f_shapes_ok F).
+          (f_derived_role F) (f_num_stoich F) (f_ia_setter F) (f_rename F) (f_ref_id F) m (f_body F) (f_shapes_ok F).
+Definition set_body (b : body_mode) (F : facts) : facts :=
+  mkFacts (f_unary F) (f_binary F) (f_nary F) (f_unop F) (f_binop F) (f_cmpop F) (f_ifexp_order F) (f_compare F)
+          (f_call_fallback F) (f_call_arity F) (f_call_kw_reject F) (f_unary_qual F) (f_lib_parents F) (f_attr_consts F)
+          (f_derived_role F) (f_num_stoich F) (f_ia_setter F) (f_rename F) (f_ref_id F) (f_math_names F) b (f_shapes_ok F).
+Definition set_tables (u b : list (string * mkind)) (F : facts) : facts :=
+  mkFacts u b (f_nary F) (f_unop F) (f_binop F) (f_cmpop F) (f_ifexp_order F) (f_compare F)
+          (f_call_fallback F) (f_call_arity F) (f_call_kw_reject F) (f_unary_qual F) (f_lib_parents F) (f_attr_consts F)
+          (f_derived_role F) (f_num_stoich F) (f_ia_setter F) (f_rename F) (f_ref_id F) (f_math_names F) (f_body F) (f_shapes_ok F).
+
+(** a body without unreachable statements: nothing follows the first `return` *)
+Definition is_ret (s : stmt) : bool := match s with SReturn _ | SReturnNone => true | _ => false end.
+Fixpoint no_dead_code (ss : list stmt) : bool :=
+  match ss with
+  | [] => true
+  | s :: r => if is_ret s then match r with [] => true | _ => false end else no_dead_code r
+  end.
+Definition is_return_expr (s : stmt) : bool := match s with SReturn _ => true | _ => false end.
